@@ -41,6 +41,10 @@ Canon(js) ==
    cleanup |-> FnOf(js.cleanup, KeyNm, ValT),
    tomb |-> {CC(c) : c \in SetOf(js.tomb)}]
 
+(* the container identity the code derives from a cache file (inode, ctime)  *)
+(* is the generation the environment wrote: both views are logged            *)
+IdentOK(js) == SetOf(js.cache) = SetOf(js.cacheid)
+
 F(name, holds) == IF holds THEN {} ELSE {name}
 E(name, cond) == IF cond THEN {name} ELSE {}
 
@@ -121,7 +125,8 @@ Verdict(pre, line, post) ==
                \cup F("C13.handoff", M!C13handoff(pre, kind, arg, post))
                \cup F("C13.noRestart", M!C13noRestart(pre, post))
                \cup F("C13.keep", M!C13keep(pre, kind, post))
-               \cup F("drift.step", by # {}),
+               \cup F("drift.step", by # {})
+               \cup F("drift.ident", IdentOK(line.post)),
       ex |-> E("C13", (kind = "sync" /\ (DOMAIN pre.apps # {} \/ DOMAIN pre.cache # {}))
                        \/ (IsHandler(ev) /\ (post.running # pre.running \/ post.cleanup # pre.cleanup)))
              \cup E("sync", kind = "sync") \cup E("term", kind = "term")
